@@ -15,7 +15,8 @@
    any other group keeps it (C05_parameter_elsewhere).  the DECLARATION PHASE is covered from the constructor for every list of names (C05_declaring_keeps_the_agreement,
    C05_declarations_from_the_constructor), setting a rate on an object without data keeps it (C05_rate_keeps_the_agreement), and THE WHOLE
    SESSION from the constructor — declare, set the rates, record — is one theorem without any hypothesis on an intermediate state
-   (C05_whole_session_from_the_constructor).  NOT yet proved: the whole predicate for extensions of a points-only data set, for the column
+   (C05_whole_session_from_the_constructor), and at every intermediate state of it
+   (C05_session_every_intermediate_state).  NOT yet proved: the whole predicate for extensions of a points-only data set, for the column
    calls and for the other edits of POINT / ANALOG parameters: decided by the check. *)
 From EZ Require Import Base Types Api Proofs_Param Proofs_Guards Spec_Inv Proofs_Inv Proofs_Header Spec_Typed Proofs_Updaters Proofs_ApiSafe Proofs_InvFrame Proofs_InvParam Proofs_Declare Proofs_InvDeclare Proofs_InvRate Float32 Run.
 Local Open Scope N_scope.
@@ -512,8 +513,29 @@ Theorem C05_whole_session_from_the_constructor : forall f_key f_tosize f_div f_i
   run_ops f_key f_tosize f_div f_is_zero
     (map OPoint ps ++ map OAnalog cs ++ [OParam nm_POINT pr; OParam nm_ANALOG ar] ++ map (fun f => OFrame f None) fs) init = ROk tt s' ->
   Inv s' /\ frames s' = fs.
-Proof. exact declarations_then_rates_then_recording. Qed.
+Proof. exact session_end. Qed.
 Print Assumptions C05_whole_session_from_the_constructor.
+
+(* ... and AT EVERY INTERMEDIATE STATE of that session (the property says "at every intermediate state, not only the final one"):
+   whatever prefix of the calls has been carried out — some of the declarations, all of them, the first rate, both rates, some of
+   the frames — header, parameters and stored data agree *)
+Theorem C05_session_every_intermediate_state : forall f_key f_tosize f_div f_is_zero,
+  (forall x e, f_key x <> Throw e) -> (forall x e, f_tosize x <> Throw e) ->
+  forall ps cs pr ar prate arate tp ta q fs s' pre post sk,
+  cs <> [] -> nlen ps < 2147483648 -> nlen cs < 2147483648 ->
+  p_name pr = nm_RATE -> kind_ok KFlt1 pr = true -> values_as_float pr = Ok (prate :: tp) -> f32_is_zero prate = false ->
+  p_name ar = nm_RATE -> kind_ok KFlt1 ar = true -> values_as_float ar = Ok (arate :: ta) ->
+  f_tosize (f_div 0 prate) = Ok 0 -> f_tosize (f_div arate prate) = Ok q -> 1 <= q -> nlen cs * q < two64 ->
+  Forall (fun f => map pt_name (fr_pts f) = map rtrim ps /\ nlen (fr_subs f) = q /\
+                   (forall sf, In sf (fr_subs f) -> map ch_name sf = map rtrim cs)) fs ->
+  nlen fs < 2147483647 ->
+  run_ops f_key f_tosize f_div f_is_zero
+    (map OPoint ps ++ map OAnalog cs ++ [OParam nm_POINT pr; OParam nm_ANALOG ar] ++ map (fun f => OFrame f None) fs) init = ROk tt s' ->
+  map OPoint ps ++ map OAnalog cs ++ [OParam nm_POINT pr; OParam nm_ANALOG ar] ++ map (fun f => OFrame f None) fs = pre ++ post ->
+  run_ops f_key f_tosize f_div f_is_zero pre init = ROk tt sk ->
+  Inv sk.
+Proof. exact session_every_intermediate_state. Qed.
+Print Assumptions C05_session_every_intermediate_state.
 
 (* non-vacuity: two points (one padded), one channel, 100 Hz / 200 Hz, two frames of two sub-frames on the executable instance:
    every hypothesis is met, the calls return normally (evaluated); the agreement and the stored frames come from the theorem *)
@@ -531,7 +553,7 @@ Proof.
               (map OPoint ps ++ map OAnalog cs ++ [OParam nm_POINT pr; OParam nm_ANALOG ar] ++ map (fun f => OFrame f None) [f1; f2]) init) as [[] s'| |] eqn:E;
     [|vm_compute in E; discriminate|vm_compute in E; discriminate].
   exists s'. split; [reflexivity|].
-  pose proof (declarations_then_rates_then_recording f_key_impl f_tosize_impl f_div_impl f_is_zero_impl f_key_impl_nothrow f_tosize_impl_nothrow
+  pose proof (session_end f_key_impl f_tosize_impl f_div_impl f_is_zero_impl f_key_impl_nothrow f_tosize_impl_nothrow
             ps cs pr ar 1120403456 1128792064 [] [] 2 [f1; f2] s') as T.
   apply T; clear T; try exact E.
   - discriminate.
@@ -552,3 +574,17 @@ Proof.
   - vm_compute. reflexivity.
 Qed.
 Print Assumptions C05_whole_session_nonvacuous.
+
+(* the repaired defect 9925f40 on the executable instance: one point recorded at 0.95 Hz (0x3f733333), no channel — the header
+   announces no sub-frame, as the frame holds none, and the agreement holds after every call *)
+Example C05_point_rate_below_1Hz :
+  let rate := mkParam nm_RATE [] false TFloat [1] [] [1064514355] [] in
+  let f := mkFrame [mkPoint [97] 1 2 3 4] [] in
+  exists s1 s2 s3, step_x init (OPoint [97]) = ROk tt s1 /\ step_x s1 (OParam nm_POINT rate) = ROk tt s2 /\
+    step_x s2 (OFrame f None) = ROk tt s3 /\ inv_b s2 = true /\ inv_b s3 = true /\ h_byframe (hdr s3) = 0 /\ nlen (frames s3) = 1.
+Proof.
+  do 3 eexists.
+  split; [vm_compute; reflexivity|]. split; [vm_compute; reflexivity|]. split; [vm_compute; reflexivity|].
+  repeat split; vm_compute; reflexivity.
+Qed.
+Print Assumptions C05_point_rate_below_1Hz.
